@@ -20,7 +20,7 @@
 From Coq Require Import String List ZArith NArith Bool.
 Import ListNotations.
 From Selfies Require Import Base Generated Atoms Grammar Decoder PySet Matching Smiles Kekulize Encoder
-  IndexSpec IndexCode Reader RoundTrip EncoderFacts PureFacts ParserTotal EncFuel EncIndex EncKey EncAttrErr EncUniq EncOrders EncKek EncMatch EncOutcomes.
+  IndexSpec IndexCode Reader RoundTrip EncoderFacts PureFacts ParserTotal EncFuel EncIndex EncKey EncAttrErr EncUniq EncOrders EncKek EncMatch EncMatchSafe EncOutcomes.
 Local Open Scope string_scope.
 
 Theorem C09_parse_error_is_encoder_error_partial : forall capf s strict attribute,
@@ -106,6 +106,17 @@ Theorem C09_kekulize_fails_only_inside_matching_partial : forall smiles attribut
   exists g, pruned_ds m0 = Ok g /\ find_perfect_matching g = Err e.
 Proof. intros smiles attribute m0 e Ep. exact (kekulize_fails_only_inside_matching m0 e (parsed_kpre _ _ _ Ep)). Qed.
 
+(* inside find_perfect_matching: on any graph whose adjacency entries are node numbers, whatever it raises is raised by
+   the greedy phase - the loop over `unmatched` (set construction, pop, BFS for an augmenting path, path reconstruction,
+   flip, discard) ends in no Python exception: not the assert on matching[root], no IndexError / TypeError from the
+   parents table, no KeyError from the set; the only failure left in the model is its own fuel (OutOfFuel = the loop
+   does not terminate within the bound), which is not excluded here (proofs/EncMatchSafe.v; needs that the CPython set
+   model keeps its keys distinct and that its lookups find every stored key) *)
+Theorem C09_matching_raises_only_in_greedy_partial : forall g e,
+  (forall i li j, nth_error g i = Some li -> In j li -> (j < length g)%nat) ->
+  find_perfect_matching g = Err e -> e = OutOfFuel \/ greedy_matching g = Err e.
+Proof. exact matching_raises_only_in_greedy. Qed.
+
 (* assembled: the outcomes of the last stage *)
 Theorem C09_last_stage_outcomes_partial : forall T smiles strict attribute m0 m1 e,
   (exists v, assoc (lit "?") T = Some v) ->
@@ -145,6 +156,7 @@ Print Assumptions C09_emission_no_index_error_partial.
 Print Assumptions C09_emission_no_key_error_partial.
 Print Assumptions C09_emission_no_attribute_error_partial.
 Print Assumptions C09_last_stage_outcomes_partial.
+Print Assumptions C09_matching_raises_only_in_greedy_partial.
 Print Assumptions C09_encoder_outcomes_partial.
 Print Assumptions C09_emission_no_assertion_error_partial.
 Print Assumptions C09_emission_no_value_error_partial.
